@@ -226,7 +226,11 @@ pub fn bank_program(seed: u64, p: u64, cart_type: u8, rom_code: u8) -> (Vec<u8>,
   // every other program ends bank 0 with an instruction that is cut by the boundary:
   // ADD A,n with the opcode at 0x3FFF and n = the first byte of whatever bank is mapped
   // (a one-byte instruction that differs from bank to bank, see below)
-  if p % 2 == 1 {
+  if p % 4 == 3 {
+    // ... or with a three-byte instruction that begins at 0x3FFE: LD DE,nn, high byte from the bank
+    image[0x3ffe] = 0x11;
+    image[0x3fff] = 0x5a;
+  } else if p % 2 == 1 {
     image[0x3fff] = 0xc6;
   }
   // the byte at 0x4000 of every bank: harmless as an instruction, different as an operand
